@@ -12,7 +12,8 @@ import threading, queue
 mode = sys.argv[1]
 pat = sys.argv[2] if len(sys.argv) > 2 else None
 NW = int(os.environ.get("EVAL_WORKERS", "8"))
-BASE = "/tmp/evalwt"
+BASE = os.environ.get("EVAL_BASE", "/tmp/evalwt")
+BIN = "/verif/bin/lovcheck.eval" + ("" if BASE == "/tmp/evalwt" else "." + os.path.basename(BASE))
 def sh(cmd, **kw): return subprocess.run(cmd, shell=True, capture_output=True, text=True, **kw)
 props = [c["property_id"] for c in json.load(open("/verif/MANIFEST.json"))["checks"]]
 if mode == "seeded":
@@ -23,7 +24,7 @@ else:
     patches = [(os.path.basename(f)[:-5], f) for f in items]
 # analyse with a frozen copy of the checker so that rebuilding bin/lovcheck during a long run cannot mix versions
 if not os.environ.get("EVAL_KEEP_BINARY"):
-    shutil.copy("/verif/bin/lovcheck", "/verif/bin/lovcheck.eval")
+    shutil.copy("/verif/bin/lovcheck", BIN)
 shutil.rmtree(BASE, ignore_errors=True); os.makedirs(BASE)
 sh("git -C /repo worktree prune")
 wq = queue.Queue()
@@ -42,7 +43,7 @@ def run(item):
             return sid, None
         det = {}
         for p in props:
-            o = sh("%s VERIF_DIR=%s timeout 900 /verif/bin/lovcheck.eval -repo %s -property %s -nocontrols" % (ENV, ev, wt, p)).stdout
+            o = sh("%s VERIF_DIR=%s timeout 900 %s -repo %s -property %s -nocontrols" % (ENV, ev, BIN, wt, p)).stdout
             if "VIOLATION" in o:
                 det[p] = sorted(set(re.findall(r"^\S+:\d+ (\S+) ", o, re.M)))
             elif "lovcheck property=" not in o:
